@@ -17,7 +17,7 @@ func init() {
 		L := tierPick(tier, 3, 4)
 		return &Plan{
 			Prop: "C04", Level: "exploration", Engine: "session",
-			Runs:   tierPick(tier, 6000, 400000),
+			Runs:   tierPick(tier, 60000, 3000000),
 			Exh:    ExhC04Count(L),
 			ExhGen: func(i int) *Trace { return ExhC04(i, L) },
 			Budget: tierPick(tier, 50*time.Second, 12*time.Minute),
@@ -32,7 +32,7 @@ func init() {
 	RegisterPlan("C05", func(tier string) *Plan {
 		return &Plan{
 			Prop: "C05", Level: "exploration", Engine: "session",
-			Runs:   tierPick(tier, 8000, 600000),
+			Runs:   tierPick(tier, 120000, 6000000),
 			Budget: tierPick(tier, 50*time.Second, 12*time.Minute),
 			Rule: "put histories ending in Finalize on four writers (blockstore.ReadWrite, storage.NewReadableWritable, storage.NewWritable, deferred path writer) over a simulated disk under swarm-drawn options; the finalized image is decoded by an independent reference codec and compared byte-exactly with the reference encoding of the model's sections, the index record multiset with the expected one, then Inspect(true) and (every 4th run, real temp file) lib.VerifyCar must accept. " +
 				"Non-trivial = at least one section stored; distinct = distinct (options, section count, image length)",
